@@ -46,26 +46,28 @@ var scenarios []*Scn
 func reg(s *Scn) { scenarios = append(scenarios, s) }
 
 type scnResult struct {
-	Name         string            `json:"name"`
-	Execs        int               `json:"execs"`
-	Steps        int               `json:"steps"`
-	States       int               `json:"states"`
-	Pruned       int               `json:"pruned"`
-	Horizons     int               `json:"horizons"`
-	Deadlocks    int               `json:"deadlocks"`
-	Crashes      int               `json:"crashes"`
-	CapHit       bool              `json:"cap_hit"`
-	Inconclusive bool              `json:"inconclusive"`
-	Bound        int               `json:"bound"`
-	Outcomes     map[string]int    `json:"outcomes"`
-	ClientOutc   map[string]int    `json:"client_outcomes"`
-	RealRuns     int               `json:"real_runs"`
-	RealInSet    int               `json:"real_in_set"`
-	RealOutside  []string          `json:"real_outside"`
-	OutcomeSamp  map[string]string `json:"-"`
-	Viol         []*ev.Violation   `json:"violations"`
-	Sample       []string          `json:"sample_log"`
-	SampleSched  []int             `json:"sample_schedule"`
+	Name            string            `json:"name"`
+	Execs           int               `json:"execs"`
+	Steps           int               `json:"steps"`
+	States          int               `json:"states"`
+	Pruned          int               `json:"pruned"`
+	Horizons        int               `json:"horizons"`
+	Deadlocks       int               `json:"deadlocks"`
+	Crashes         int               `json:"crashes"`
+	CapHit          bool              `json:"cap_hit"`
+	Inconclusive    bool              `json:"inconclusive"`
+	Bound           int               `json:"bound"`
+	Outcomes        map[string]int    `json:"outcomes"`
+	ClientOutc      map[string]int    `json:"client_outcomes"`
+	RealRuns        int               `json:"real_runs"`
+	RealInSet       int               `json:"real_in_set"`
+	RealOutside     []string          `json:"real_outside"`
+	RealRaces       int               `json:"real_races"`
+	RealRaceSamples []string          `json:"real_race_samples"`
+	OutcomeSamp     map[string]string `json:"-"`
+	Viol            []*ev.Violation   `json:"violations"`
+	Sample          []string          `json:"sample_log"`
+	SampleSched     []int             `json:"sample_schedule"`
 }
 
 type replayDoc struct {
